@@ -122,19 +122,10 @@ pub fn def(ctx: &Ctx) -> PropertyDef {
     let mut scenarios: Vec<Scenario> = Vec::new();
     for (p, core) in programs(quick) {
         let three = p.threads.len() >= 3;
-        scenarios.push(program_scenario(p, oracle(), move |_c| IlvCfg {
-            bounds: match (quick, core, three) {
-                (true, true, _) => vec![0, 1, 2],
-                (true, false, _) => vec![0, 1],
-                (false, true, _) => vec![0, 1, 2, 3],
-                (false, false, true) => vec![0, 1, 2],
-                (false, false, false) => vec![0, 1, 2, 3],
-            },
-            workers,
-            split_depth: 6,
-            time_cap_s: Some(if quick { 6.0 } else { 300.0 }),
-            max_executions: None,
-        }));
+        scenarios.push({
+                let nthreads = p.threads.len();
+                program_scenario(p, oracle(), move |c| crate::harness::ilv::tier_cfg(c, nthreads))
+            });
     }
     scenarios.push(seq_scenario(agree_spec, "seq/read-variants-agree"));
     PropertyDef {
